@@ -313,7 +313,9 @@ func (d *dumper) composite(kind string, t cadence.CompositeType, vals []cadence.
 	} else {
 		fs = getCompositeTypeFields(t)
 		if d.m.Static == TNone {
-			d.w("<" + t.ID() + ">")
+			// the ID and the number of declared fields (attachments are values
+			// beyond the declared fields; the field names are printed with the values)
+			d.w("<" + t.ID() + "/" + strconv.Itoa(len(fs)) + ">")
 		} else {
 			d.static(t)
 		}
